@@ -5,9 +5,11 @@ CONSTANTS
   Drawings = 1
   Kinds = {}
   MutSeq <- MutNone
-  Modes = {}
+  ModeSeq <- ModeAny
   MaxSegs = 0
   Styles = {}
+  RolePats <- TwoRolePats
   Theorems = FALSE
+  Tiles = FALSE
 INVARIANTS Emit
 CHECK_DEADLOCK FALSE
